@@ -224,6 +224,17 @@ func buildEnv(seed uint64, n int) *env {
 			}
 		}
 	}
+	// queries whose FIELD NAME is a number that other queries of the corpus use as a
+	// value (the integer pool of the generators and the repository's inputs above): they
+	// come last, so that the second sequential pass and the snapshots show whether
+	// parsing them changed what the earlier queries mean
+	for _, q := range []string{"lvl:7 AND n:[0 TO 5] OR m:(10 OR 2 OR 200) OR k:>=22 OR j:-1 OR r:[0.5 TO 1.5] OR s:5.5", "7:x", "5:[1 TO 2]", "10:>=10", "0:a AND 1:b", "2:(a OR b)", "-1:x", "200:x*", "22:/r/", "5.5:y", "1.5:[0.5 TO 1.5]", "level:7 AND retries:[3 TO 7] AND 7:z"} {
+		in := input{query: q}
+		if t, err := parse(q, ""); err == nil {
+			in = withTree(q, "", t)
+		}
+		e.inputs = append(e.inputs, in)
+	}
 	// trees built through the constructors that the parser cannot produce
 	for _, b := range []*expr.Expression{
 		expr.Eq("name", "jo*n?"), expr.Eq("p", "/x+/"), expr.AND(expr.Eq("a", "b*"), expr.NOT(expr.Eq("c", expr.WILD("d?")))),
